@@ -92,6 +92,17 @@ func (eng *Engine) callNonFresh(c *ssa.CallCommon, out map[string]bool, ok func(
 		for h := range eng.nonFresh(callee.Fn.(*ssa.Function)) {
 			out[h] = true
 		}
+	case *ssa.Parameter:
+		if callee.Parent() != nil && callee.Parent().Pkg != nil {
+			key := callee.Parent().Pkg.Pkg.Path() + "::callback:" + funcKey(callee.Parent()) + "." + callee.Name()
+			if ct := eng.cs.Contracts[key]; ct != nil {
+				for h := range eng.callbackEffects(ct, callee) {
+					out[h] = true
+				}
+				return
+			}
+		}
+		out["*"] = true
 	default:
 		if fn := closureOf(c.Value); fn != nil {
 			for h := range eng.nonFresh(fn) {
